@@ -139,3 +139,22 @@ def c16(run):
                        'thorough: all 1023 subsets) x 14 representations incl. malformed x histories of SetOps/operations after construction; '
                        'distinct_nontrivial = distinct (family, representation, built, list length) keys')
     return D.finish(run, 'proof')
+
+
+# ------------------------------------------------------------------ C05
+
+@check('C05')
+def c05(run):
+    run.assumptions += ['labels of header maps are Go `int` or string (the documented CoseMap contract; Set and the decoder normalise them)',
+                        'the message layer is exercised with deterministic fake primitives that accept everything, so the algorithm check is the only gate']
+    run.trusted += ['model of the header logic in coq/Model/MsgLogic.v (statement-by-statement transcription of WithSign/Compute/Encrypt/Verify/Decrypt, validated by the alg correspondence)']
+    D.prove(run, extra_targets=['Model/MsgCorr.vo'])
+    rc, o = D.harness_build()
+    if rc != 0:
+        run.broke('harness build', o[-1500:])
+    else:
+        D.correspond(run, 'alg', [])
+    run.cov['rule'] = ('5 single-key kinds x produce/consume x (header alg, key alg) over the 24 registered algorithms incl. pairs sharing key material x 11 header representations '
+                       '(int, int64, uint64, key.Alg, int32, text, null, float, bytes, out-of-range, bool) x headers present/absent/nil; COSE_Sign with 1-3 signers and verifiers by kid; '
+                       'thorough: all 24x24 ordered pairs x 5 kinds x 3 representations')
+    return D.finish(run, 'proof')
